@@ -685,7 +685,7 @@ def run_schedule(scn, policy=None, schedule=None):
         if a != 'main' and b != 'main' and a != b:
             mid += 1
     return {'sim': sim, 'outcomes': outcomes, 'fired': fired, 'injected': sim.injected, 'acc_to_acc_switches': mid,
-            'digest': rng.digest(sim.log), 'ctx_digest': rng.digest(sim.ctx), 'storage_events': storage.seq}
+            'digest': rng.digest([sim.log, sim.ctx]), 'ctx_digest': rng.digest(sim.ctx), 'storage_events': storage.seq}
 
 
 def viol(oracle, sig, detail):
